@@ -154,6 +154,12 @@ CORPUS_SRC = r'''(def corpus @[])
 (add "longstr" (string/repeat "0123456789abcdef" 150))
 (add "deep" (do (var x :leaf) (for i 0 60 (set x (if (even? i) [x] @[x]))) x))
 (add "refs" (let [s "shared-string" t @[1 2]] [s s t t s [t t] {:a s :b t}]))
+# 12. a definition whose constants reach another closure of the same definition (funcdef back-reference from inside
+#     the definition's own constants; the inner function is created while its definition is still being read)
+(def selfdef-t @{:pad 1})
+(def selfdef-mk (fn mk [u v] (fn inner [y] [u v y selfdef-t (if (and (number? y) (> y 0)) ((get selfdef-t :a) (- y 1)))])))
+(put selfdef-t :a (selfdef-mk 1 2))
+(add "closure-selfdef" (selfdef-mk 3 4))
 
 
 (defn hex [b] (def out (buffer/new (* 2 (length b)))) (each c b (buffer/format out "%02x" c)) (string out))
@@ -269,7 +275,11 @@ PRELUDE = r'''# ---- C10 harness (constant part of every plan) ----
           (bump :function_called)
           (when (not= st :error) (bump :function_returned))
           (++ calls)
-          (when (or (function? r) (fiber? r)) (if (< (length work) 14) (array/push work r)))
+          (if (or (function? r) (fiber? r))
+            (if (< (length work) 14) (array/push work r))
+            # functions handed out inside a data structure (a closure reached through a constant table)
+            (when (or (indexed? r) (dictionary? r))
+              (each y (collect r) (if (and (< (length work) 14) (not (find |(= $ y) work))) (array/push work y)))))
           (when (not= 0 (band mask 1)) (bounded (fn [] (string/format "%q" r))))
           (var k 0)
           (while (and (< k 5) (= (fiber/status fb) :pending))
